@@ -3,6 +3,7 @@ import hashlib, math, os, re, struct
 
 from .. import aldor
 from .. import run as R
+from .. import findings
 from ..check import Fail, result, derive_seed
 from ..evidence import Ev
 
@@ -247,9 +248,34 @@ def run_op(args):
                 what = "%s%s: all evaluators say %s, the mathematical definition says %s" % (op, tuple(tup), vi, want)
                 kind = "model-differs"
         if what:
-            fails.append(Fail({"kind": kind, "op": op, "what": what}, {"op": op, "tuples": [list(tup)]}))
+            desc = {"kind": kind, "op": op, "klass": klass_of(kind, op, ret, argt, tup, vi, vf, vc), "what": what}
+            kf = findings.match(ID, desc)
+            if kf is not None and not _REPLAYING:      # a listed finding: count it and go on with the other tuples
+                ev.excluded_known[kf["id"]] += 1
+                continue
+            fails.append(Fail(desc, {"op": op, "tuples": [list(tup)]}))
             break
     return result(ev, fails)
+
+
+_REPLAYING = False
+
+
+def klass_of(kind, op, ret, argt, tup, vi, vf, vc):
+    """the one listed class (C04-K40): under -Qffold the peephole pass applies the integer identities x*0 = 0, 0/x = 0, x+0 = x, 0-x = -x
+    to floats, so a float operation with a literal zero operand whose true result is a zero gets the other sign of zero"""
+    if kind != "evaluators-differ" or ret not in ("SFlo", "DFlo") or vi != vc or vf is None or vi is None:
+        return "other"
+    if not any(op.endswith(x) for x in ("FloPlus", "FloMinus", "FloTimes", "FloDivide")):
+        return "other"
+    try:
+        zero_arg = any(t in ("SFlo", "DFlo") and float(v) == 0.0 for t, v in zip(argt, tup))
+    except ValueError:
+        return "other"
+    a, b = vi.split(), vf.split()
+    if zero_arg and len(a) == len(b) == 3 and a[1:] == b[1:] and a[0] != b[0] and int(a[2]) == 0 and int(a[1]) in (-127, -1023):
+        return "ffold-signed-zero"
+    return "other"
 
 
 def tuples_for(op, sig, quick, seed):
@@ -336,11 +362,14 @@ def replay(ctx, case):
     wd = os.path.join(R.WORK, "c04r-%d" % os.getpid())
     shutil.rmtree(wd, ignore_errors=True)
     os.makedirs(wd)
+    global _REPLAYING
     try:
+        _REPLAYING = True       # a listed finding is returned (and reported as KNOWN-FINDING by the driver), not skipped
         r = run_op((ctx.tc, op, tab[op], [tuple(t) for t in case["tuples"]], wd))
         if r["fails"]:
             f = r["fails"][0]
             return Fail(f["desc"], case, f["what"])
         return None
     finally:
+        _REPLAYING = False
         shutil.rmtree(wd, ignore_errors=True)
